@@ -280,7 +280,11 @@ ParseBlockHeader ==
   /\ st.tag = "BlockHeaders"
   /\ LET f == stream[st.fi] IN
      IF st.bl = 0
-     THEN Return(Res("err", T_Headers, 0, 0, st.fi, pos, "count"), [NoneSt EXCEPT !.fi = st.fi], buf, -1)
+     THEN \* no bytes left: an empty list (zero items announced) is a complete message,
+          \* anything else is an incorrect item count
+          IF st.il = 0
+          THEN Return(Res("headers", T_Headers, 0, 0, st.fi, pos, ""), [NoneSt EXCEPT !.fi = st.fi], buf, -1)
+          ELSE Return(Res("err", T_Headers, 0, 0, st.fi, pos, "count"), [NoneSt EXCEPT !.fi = st.fi], buf, -1)
      ELSE IF ~HeaderParses(f, (f.len - 2) - st.bl, buf)
      THEN Return(Res("err", T_Headers, 0, 0, st.fi, pos, "decode"), st, buf, -1)
      ELSE LET bl2 == Max(st.bl - BH, 0)
